@@ -1,10 +1,11 @@
 (* C14 driver commands (regret minimiser).  Parsing / printing only; every computation is a call into Model.
    rg_construct <count|id> <clamp 0|1> <np> <lim> <plus 0|1>
       -> index_error | ok <stored lim> <V> <table len> <nrm> | r2i.. | id_to_rank at each r2i.. | pmap..
-   rg_step <count|id> <clamp> <np> <lim> <plus> <iter> <R> <C> regret(R*C) strat(R*C)
+   rg_step <count|id> <clamp> <do_iter 0|1> <np> <lim> <plus> <iter> <R> <C> regret(R*C) strat(R*C)
            <T> terminal(T) <U> (<k> coalition ids(k))*U <P> (<k> coalition ids(k))*P
-      -> <err> | ok <iter> | regret.. | strat.. | S strategies(nrm*nc) | A averages(nrm*nc) | (Q avg-in-coalition-space)*P
-      where S/A/Q sections print "nan" / "index_error" / "value_error" when the model says so
+      -> load_<err> | S strategies(nrm*nc) | A averages(nrm*nc) | (Q avg-in-coalition-space)*P   [of the given state]
+         then, if do_iter: | N <err>   or   | N ok <iter> | regret.. | strat..                    [state after one iteration]
+      S/A/Q sections print "nan" / "index_error" / "value_error" when the model says so
    rg_ranks <nc> <lim>  -> the ranking alone (any nc, not only 2^n-n-2) *)
 open Model
 open Drv_util
@@ -46,6 +47,7 @@ let read_lists (t : toks) : n list list = next_list t (fun t -> next_list t next
 
 let cmd_step (t : toks) (buf : Buffer.t) : unit =
   let v = variant_of t in
+  let do_iter = next_bool t in
   let np = next_nat t in
   let lim = next_nat t in
   let plus = next_bool t in
@@ -60,18 +62,20 @@ let cmd_step (t : toks) (buf : Buffer.t) : unit =
   let sv = { rg_sv_iter = it; rg_sv_np = np; rg_sv_lim = lim; rg_sv_plus = plus; rg_sv_regret = reg; rg_sv_strat = st } in
   match rg_load v sv with
   | RgOk s0 ->
-    (match rg_iteration s0 terminal used with
-     | RgOk s ->
-       Buffer.add_string buf (Printf.sprintf "ok %d |" (int_of_nat s.rg_iter));
-       add_matrix buf s.rg_regret; Buffer.add_string buf " |";
-       add_matrix buf s.rg_strat; Buffer.add_string buf " | S";
-       (match rg_all_strategies s with RgOk m -> add_matrix buf m | e -> Buffer.add_string buf (" " ^ err_name e));
-       Buffer.add_string buf " | A";
-       (match rg_all_averages s with RgOk m -> add_matrix buf m | e -> Buffer.add_string buf (" " ^ err_name e));
-       List.iter (fun p ->
-           Buffer.add_string buf " | Q";
-           match rg_average_strategy s p with RgOk l -> add_qs buf l | e -> Buffer.add_string buf (" " ^ err_name e)) pasts
-     | e -> Buffer.add_string buf (err_name e))
+    Buffer.add_string buf "S";
+    (match rg_all_strategies s0 with RgOk m -> add_matrix buf m | e -> Buffer.add_string buf (" " ^ err_name e));
+    Buffer.add_string buf " | A";
+    (match rg_all_averages s0 with RgOk m -> add_matrix buf m | e -> Buffer.add_string buf (" " ^ err_name e));
+    List.iter (fun p ->
+        Buffer.add_string buf " | Q";
+        match rg_average_strategy s0 p with RgOk l -> add_qs buf l | e -> Buffer.add_string buf (" " ^ err_name e)) pasts;
+    if do_iter then
+      (match rg_iteration s0 terminal used with
+       | RgOk s ->
+         Buffer.add_string buf (Printf.sprintf " | N ok %d |" (int_of_nat s.rg_iter));
+         add_matrix buf s.rg_regret; Buffer.add_string buf " |";
+         add_matrix buf s.rg_strat
+       | e -> Buffer.add_string buf (" | N " ^ err_name e))
   | e -> Buffer.add_string buf ("load_" ^ err_name e)
 
 let cmd_ranks (t : toks) (buf : Buffer.t) : unit =
